@@ -88,20 +88,18 @@ func OverlappingTemplateMatchingProto(bits []bool, m int) (p1 float64, p2 float6
 	for i := 0; i <= mask1; i++ {
 		S1 += patterns1[i] * patterns1[i]
 	}
-	S1 *= mask1 + 1
 	for i := 0; i <= mask2; i++ {
 		S2 += patterns2[i] * patterns2[i]
 	}
-	S2 *= mask2 + 1
 	for i := 0; i <= mask3; i++ {
 		S3 += patterns3[i] * patterns3[i]
 	}
-	S3 *= mask3 + 1
 
 	// Step 4: ψ² 的差分在除以 n 之前先做整数相减（各项中的 -n 相互抵消），
-	// 避免相近浮点数相减的舍入噪声经 igamc(a, x→0) 放大（m=2 时 P2 偏差可达 1e-7）
-	DPhi2 = float64(S1-S2) / float64(n)
-	D2Phi2 = float64(S1-2*S2+S3) / float64(n)
+	// 避免相近浮点数相减的舍入噪声经 igamc(a, x→0) 放大（m=2 时 P2 偏差可达 1e-7）。
+	// ψ²_m - ψ²_{m-1} = 2^(m-1)(2·S1 - S2)/n, ψ²_m - 2ψ²_{m-1} + ψ²_{m-2} = 2^(m-2)(4·S1 - 4·S2 + S3)/n
+	DPhi2 = float64(2*S1-S2) * float64(mask2+1) / float64(n)
+	D2Phi2 = float64(4*S1-4*S2+S3) * float64(mask3+1) / float64(n)
 
 	// Step 5
 	p1 = igamc(float64(len(patterns3)), DPhi2/2.0)
